@@ -26,9 +26,48 @@ STATE_FIELDS = ["gamma_", "cyclic_corner_element_", "main_diagonal_values_", "su
 BUILD_ROOT_CLASSES = ("SmootherGive", "SmootherTake", "ExtrapolatedSmootherGive", "ExtrapolatedSmootherTake")
 
 
-def matrix_write_target(t):
+def pointer_aliases(fn):
+    """local pointer variables of fn that name a stored-matrix array: `T* const diag = main_diagonal_values_.get();`
+    (also `+ offset`, `&field[k]`): decl id -> member name"""
+    out = {}
+
+    def base_field(e):
+        k = e.get("k")
+        if k in ("Paren", "Cast", "ImplicitCast") and e.get("e") is not None:
+            return base_field(e["e"])
+        if k == "Call" and e.get("callee", "").endswith("::get") and e.get("this") is not None and is_this_field(e["this"]) and e["this"]["field"] in STATE_FIELDS:
+            return e["this"]["field"]
+        if k == "Bin" and e.get("op") in ("+", "-"):
+            return base_field(e["a"])
+        if k == "Un" and e.get("op") == "&":
+            return matrix_write_target(e["e"])
+        if k == "Ref" and e.get("id") in out:
+            return out[e["id"]]
+        return None
+
+    for n in ir.walk(fn["body"]):
+        if n.get("k") == "Decl":
+            for v in n.get("vars", []):
+                if v.get("init") is not None and "*" in (v.get("t") or ""):
+                    f = base_field(v["init"])
+                    if f:
+                        out[v["id"]] = f
+    return out
+
+
+def matrix_write_target(t, aliases=None):
     """name of the stored-matrix component an assignment target denotes, or None"""
     k = t.get("k")
+    if aliases and k == "Index" and t["base"].get("k") == "Ref" and t["base"].get("id") in aliases:
+        return aliases[t["base"]["id"]]
+    if aliases and k == "Un" and t.get("op") == "*":
+        b = t["e"]
+        while b.get("k") in ("Paren", "Cast", "ImplicitCast") and b.get("e") is not None:
+            b = b["e"]
+        if b.get("k") == "Ref" and b.get("id") in aliases:
+            return aliases[b["id"]]
+        if b.get("k") == "Bin" and b["a"].get("k") == "Ref" and b["a"].get("id") in aliases:
+            return aliases[b["a"]["id"]]
     if k == "Call" and t.get("callee", "").startswith(CLS + "::") and t["callee"].split("::")[-1] in MUT_ACC[:3]:
         th = t.get("this")
         if th is not None and th.get("k") == "This":
@@ -322,10 +361,11 @@ def main(tier):
         ck.analysed(fn)
         guarded_ifs = {}
         n_writes = 0
+        aliases = pointer_aliases(fn)
         for s, guards in stmts_with_guards(fn["body"]):
             for e in exprs_of_stmt(s):
                 for tgt, node in writes_in_expr(e):
-                    comp = matrix_write_target(tgt)
+                    comp = matrix_write_target(tgt, aliases)
                     if comp is None:
                         continue
                     n_writes += 1
@@ -359,13 +399,31 @@ def main(tier):
             else:
                 # nothing after the flag that writes the matrix
                 after = stm[sets[-1] + 1:]
-                later = [1 for s in after for e in exprs_of_stmt(s) for tgt, _ in writes_in_expr(e) if matrix_write_target(tgt)]
+                later = [1 for s in after for e in exprs_of_stmt(s) for tgt, _ in writes_in_expr(e) if matrix_write_target(tgt, aliases)]
                 if later:
                     ck.violation("R-C14-1", key + ":write-after-flag", ir.locstr(ifn), "%s writes the stored matrix after setting factorized_" % name)
                 else:
                     ck.ok("R-C14-1", key, sample={"function": name, "guard": ir.show(ifn["c"]), "block statements": len(stm)})
     # ---------------- R-C14-3 : who writes factorized_
     writers = 0
+    cg0 = structq.CallGraph(prog)
+
+    def only_from_special_members(qn, depth=0, seen=()):
+        """a helper of the class that every call chain reaches from constructors / copy / move members only (e.g. a private
+        copyFrom shared by copy constructor and copy assignment) transfers the flag together with the factors it describes"""
+        callers = cg0.callers.get(qn, set())
+        if not callers or depth > 4:
+            return False
+        for c in callers:
+            if c in seen:
+                continue
+            fl = prog.functions.get(c, [])
+            if c.startswith(CLS + "::") and fl and all(f.get("special") for f in fl):
+                continue
+            if c.startswith(CLS + "::") and only_from_special_members(c, depth + 1, seen + (qn,)):
+                continue
+            return False
+        return True
     for qn, fns in prog.functions.items():
         if not qn.startswith(CLS + "::"):
             continue
@@ -377,7 +435,7 @@ def main(tier):
                             writers += 1
                             short = qn.split("::")[-1]
                             ck.instance("R-C14-3", "%s:factorized_" % short)
-                            if fn.get("special") or short in SOLVES:
+                            if fn.get("special") or short in SOLVES or only_from_special_members(qn):
                                 ck.ok("R-C14-3", short)
                             else:
                                 ck.violation("R-C14-3", "%s:writes-flag" % short, ir.locstr(node), "%s writes factorized_ outside the factorisation block / constructors" % qn)
